@@ -1,6 +1,6 @@
 (* C07  Expression trees follow the C/C++ operator grammar: property statements only. *)
 From Coq Require Import List NArith Bool.
-From CV Require Import Ast.Defs Ast.Main1 Ast.Main2 Ast.NoDecl Ast.Main3 Ast.Main4.
+From CV Require Import Ast.Defs Ast.Main1 Ast.Main2 Ast.NoDecl Ast.Main3 Ast.Main4 Ast.Labels.
 Import ListNotations.
 Local Open Scope N_scope.
 
@@ -139,6 +139,23 @@ Example C07_stage5_premises :
   prep (2 * length (render e ++ [semi])) (render e ++ [semi]) = render e ++ [semi] /\
   parse false (render e) = Some (tree_of e) /\ parse true (render e) = Some (tree_of e).
 Proof. vm_compute. repeat split; reflexivity. Qed.
+
+(* The premise [labels_ok] is no restriction on expressions: labelling every node token with its position in the
+   rendering ([canon], what the correspondence run does) satisfies it, for every expression. *)
+Theorem C07_labels_ok_canon : forall e : expr, labels_ok (canon e) = true.
+Proof. exact labels_ok_canon. Qed.
+Print Assumptions C07_labels_ok_canon.
+
+(* hence stage 5 for position-labelled expressions without the label premise *)
+Theorem C07_parse_render_canon_partial :
+  forall (cpp : bool) (e0 : expr), let e := canon e0 in
+    frag5 e = true -> wf e = true -> mid_ok e = true -> decl_like (render e) = false ->
+    prep (2 * length (render e ++ [semi])) (render e ++ [semi]) = render e ++ [semi] ->
+    parse cpp (render e) = Some (tree_of e).
+Proof.
+  intros cpp e0 e Hf Hw Hm Hd Hp. apply parse_render_stage5; try assumption. apply labels_ok_canon.
+Qed.
+Print Assumptions C07_parse_render_canon_partial.
 
 (* r = d + ( a * f ( b , c ) )   with every identifier a declared variable (f: a function pointer).
    Before fix 7d6f057 (skipDecl) this well-formed expression refuted the full statement; with the model
